@@ -33,15 +33,9 @@ def dec_of_float(v):
         exp = 0
     if sign:
         m = -m
-    if abs(m) >= 2**53 or abs(exp) > 22:
-        raise Fail('literal %r not exactly one rounding from m*10^e' % v)
-    # check: one correctly rounded op reproduces the double
-    if exp >= 0:
-        got = float(m) * float(10 ** exp)
-    else:
-        got = float(m) / float(10 ** (-exp))
-    if got != v:
-        raise Fail('literal %r: of_dec would not reproduce it' % v)
+    # check that the exact decimal rounds to this double (Python's own parser)
+    if float('%de%d' % (m, exp)) != v:
+        raise Fail('literal %r is not the nearest double of %de%d' % (v, m, exp))
     return '(of_dec (%d) (%d))' % (m, exp)
 
 class Tr:
@@ -122,6 +116,12 @@ class Tr:
                 return ('npi', 'R')
             if n.attr == 'e':
                 return ('(nexp one)', 'R')
+        if isinstance(n.value, ast.Name) and n.value.id == 'self' and getattr(self, 'klass', None) is not None:
+            for st in self.klass.body:
+                if isinstance(st, ast.Assign) and len(st.targets) == 1 \
+                   and isinstance(st.targets[0], ast.Name) and st.targets[0].id == n.attr:
+                    sub = Tr({}, self.src); sub.module = getattr(self, 'module', None)
+                    return sub.expr(st.value)
         if n.attr in ('real', 'imag'):
             t, k = self.expr(n.value)
             if k != 'C':
@@ -433,9 +433,9 @@ class Tr:
             if isinstance(s, ast.If) and result[0] == 'return' and s.body \
                and isinstance(s.body[-1], ast.Return) and not s.orelse:
                 c = self.truthy(s.test)
-                sub = Tr(self.env, self.src); sub.module = getattr(self, 'module', None); sub.fresh = self.fresh + 100
+                sub = Tr(self.env, self.src); sub.module = getattr(self, 'module', None); sub.klass = getattr(self, 'klass', None); sub.fresh = self.fresh + 100
                 a, ka = sub.body(s.body, result)
-                rest = Tr(self.env, self.src); rest.module = getattr(self, 'module', None); rest.fresh = self.fresh + 200
+                rest = Tr(self.env, self.src); rest.module = getattr(self, 'module', None); rest.klass = getattr(self, 'klass', None); rest.fresh = self.fresh + 200
                 idx = stmts.index(s)
                 b, kb = rest.body(stmts[idx + 1:], result)
                 k = 'B' if (ka, kb) == ('B', 'B') else self.join(ka, kb)
@@ -449,7 +449,7 @@ class Tr:
                 # both branches may only (re)assign names; merge by phi
                 envs = []
                 for br in (s.body, s.orelse):
-                    sub = Tr(self.env, self.src); sub.module = getattr(self, 'module', None)
+                    sub = Tr(self.env, self.src); sub.module = getattr(self, 'module', None); sub.klass = getattr(self, 'klass', None)
                     sub.fresh = self.fresh + 100 * (1 + len(envs))
                     sl = []
                     r = sub.block(br, sl, ('none',))
@@ -517,7 +517,7 @@ class Tr:
                 raise Fail('loop body statement %s' % type(st).__name__)
             if st.target.id not in accs:
                 accs.append(st.target.id)
-        sub = Tr(self.env, self.src); sub.module = getattr(self, 'module', None)
+        sub = Tr(self.env, self.src); sub.module = getattr(self, 'module', None); sub.klass = getattr(self, 'klass', None)
         sub.fresh = self.fresh + 1000
         for i, nm in enumerate(lists):
             sub.env['%s[%s]' % (nm, j)] = ('e%d_' % i, self.env[nm][1][1])
@@ -529,7 +529,7 @@ class Tr:
             sub.env[a] = ('a_%s' % a, self.env[a][1])
         # accumulators that become complex stay complex: iterate kinds to fixpoint
         for _ in range(3):
-            trial = Tr(sub.env, self.src); trial.module = getattr(self, 'module', None)
+            trial = Tr(sub.env, self.src); trial.module = getattr(self, 'module', None); trial.klass = getattr(self, 'klass', None)
             trial.fresh = sub.fresh
             sl = []
             trial.block(s.body, sl, ('none',))
@@ -624,6 +624,10 @@ def find_stmts(func, path):
                         tg = node.targets if typ is ast.Assign else [node.target]
                         if any(ast.unparse(t) == sel[1] for t in tg):
                             hits.append(node)
+            if len(sel) > 2:
+                if sel[2] >= len(hits) or len(hits) != sel[3]:
+                    raise Fail('%d assignments to %s, contract expects %d' % (len(hits), sel[1], sel[3]))
+                return [ast.Return(value=hits[sel[2]].value)]
             if len(hits) != 1:
                 raise Fail('%d assignments to %s' % (len(hits), sel[1]))
             return [ast.Return(value=hits[0].value)]
@@ -663,6 +667,11 @@ def translate_item(trees, item):
         env[text] = (coq, kind)
     tr = Tr(env, item['file'])
     tr.module = trees[item['file']]
+    if '.' in item['func']:
+        cname = item['func'].split('.')[0]
+        for nd in trees[item['file']].body:
+            if isinstance(nd, ast.ClassDef) and nd.name == cname:
+                tr.klass = nd
     res = item['result']
     res = (res[0], tuple(res[1])) if res[0] == 'superinit' else tuple(res)
     t, k = tr.body(stmts, res)
